@@ -210,6 +210,11 @@ def materialise(scn, d, scheme='structural', name_tables=False):
     conf = mapping_config(d, d / 'q.h5ad', d / 'stats.h5', d / 'm.json', cfg)
     if cfg.get('drop') is not None:
         conf['drop_level'] = nm.level(cfg['drop'])
+    if cfg.get('drop_name') == 'prefix-of-top':
+        # a level name that is not in the hierarchy but is a proper prefix of one that is
+        conf['drop_level'] = nm.level(tj['hier'][0])[:-1] or 'no_such_level'
+    elif cfg.get('drop_name'):
+        conf['drop_level'] = cfg['drop_name']
     if scheme == 'ensembl':
         conf['map_to_ensembl'] = True
         conf['summary_metadata_path'] = str(d / 'out' / 'summary.json')
